@@ -72,7 +72,35 @@ func c08ValidateDominates(c *Ctx, rule string) {
 		c.Undecided(rule, f.Name+"|shape", "no switch over the column type in Tuple.Encode")
 		return
 	}
-	writes := f.Calls(sw, false, "binary.Write")
+	// a typed write: any call that puts a column value on the wire, whichever library routine does it
+	valueArg := map[*ast.CallExpr]ast.Expr{}
+	var writes []*ast.CallExpr
+	for _, call := range f.Calls(sw, false, "binary.Write", "bytes.Buffer.WriteByte", "bytes.Buffer.WriteString", "bytes.Buffer.Write",
+		"binary.littleEndian.PutUint16", "binary.littleEndian.PutUint32", "binary.littleEndian.PutUint64") {
+		var v ast.Expr
+		switch {
+		case f.CallIs(call, "binary.Write") && len(call.Args) == 3:
+			v = call.Args[2]
+		case f.CallIs(call, "bytes.Buffer.Write"):
+			// the transfer of a scratch array that PutUintN filled is not a value write of its own
+			if t := f.TypeOf(ast.Unparen(call.Args[0])); t != nil {
+				if sl, ok := ast.Unparen(call.Args[0]).(*ast.SliceExpr); ok {
+					if _, isArr := f.TypeOf(sl.X).Underlying().(*types.Array); isArr {
+						continue
+					}
+				}
+			}
+			v = call.Args[0]
+		case len(call.Args) == 2:
+			v = call.Args[1]
+		case len(call.Args) == 1:
+			v = call.Args[0]
+		}
+		if v != nil {
+			valueArg[call] = v
+			writes = append(writes, call)
+		}
+	}
 	if len(writes) < 4 {
 		c.Undecided(rule, f.Name+"|writes", "only %d typed writes found", len(writes))
 	}
@@ -82,8 +110,8 @@ func c08ValidateDominates(c *Ctx, rule string) {
 		ok := false
 		// a write whose operand is an interface value (the arms computed a payload and one write emits it) has no
 		// static type to check against the arm: the value's route from Validate is not followed
-		if len(wr.Args) == 3 {
-			if t := f.TypeOf(wr.Args[2]); t != nil {
+		{
+			if t := f.TypeOf(valueArg[wr]); t != nil {
 				if _, isIface := t.Underlying().(*types.Interface); isIface {
 					c.Undecided(rule, key, "the value written at %s has interface type: which arm's value it is, and whether it passed Validate, is not decided", c.W.Pos(wr.Pos()))
 					continue
@@ -110,16 +138,8 @@ func c08ValidateDominates(c *Ctx, rule string) {
 				return Go
 			}, nil)
 			// Validate must be applied to the value that is written
-			written := exprKey(wr.Args[2])
-			// a local that holds (part of) the value: `str := val.(string)` … uint32(len(str))
-			ast.Inspect(wr.Args[2], func(y ast.Node) bool {
-				if id, ok := y.(*ast.Ident); ok {
-					if rhs, _, ok := f.definedBy(f.Decl.Body, f.ObjOf(id)); ok {
-						written += " " + exprKey(rhs)
-					}
-				}
-				return true
-			})
+			// (through locals: `str := val.(string)` … uint32(len(str)), or a byte chosen by `if val.(bool)`)
+			written := f.provenanceText(valueArg[wr])
 			sameVal := len(v.Args) == 1 && strings.Contains(written, exprKey(v.Args[0]))
 			if !viaErr && sameVal {
 				ok = true
